@@ -490,7 +490,9 @@ contract(
               "0 <= self.level", "self.level <= 1"],
     raises={"ValueError": "HASNAN(X) or n < 2 * self.bandwidth"},
     modifies=_MW_TUNE_MODS,
-    ensures={"threshold": "self.threshold_ == MWQ(self._change_score.ghost_tok, self.bandwidth, n, 1 - self.level)",
-             "fitted_on_X": "self._change_score._is_fitted == True and self._change_score.ghost_n == n"},
+    # the value of threshold_ is the post-condition of _tune_threshold (above); it is not repeated here: it rests on the axiom instance inside
+    # that contract, and a maintainer moving the two lines of _tune_threshold into _get_threshold would otherwise turn a missing hint into a
+    # refuted post-condition (a false alarm) - with the clause at the function that computes the quantile, that refactoring is "undecided"
+    ensures={"fitted_on_X": "self._change_score._is_fitted == True and self._change_score.ghost_n == n"},
     props=["C15", "C14"],
 )
